@@ -1,5 +1,3 @@
-use kiddo::immutable::float::kdtree;
-use kiddo::SquaredEuclidean;
 use parry3d_f64::na::Point;
 use std::num::NonZero;
 
@@ -16,7 +14,13 @@ pub trait KdTreeSearch<const D: usize> {
 
 /// An immutable k-dimensional tree for fast searches on points in D dimensions
 pub struct KdTree<const D: usize> {
-    tree: kdtree::ImmutableKdTree<f64, usize, D, 32>,
+    /// The coordinates of the points, in the order they were given
+    points: Vec<[f64; D]>,
+
+    /// The point indices arranged as an implicit balanced tree: the node of any range of this
+    /// vector is its middle element, the elements before it are not greater than it on the
+    /// splitting axis of that level and the elements after it are not smaller.
+    order: Vec<usize>,
 }
 
 impl<const D: usize> KdTree<D> {
@@ -25,17 +29,71 @@ impl<const D: usize> KdTree<D> {
     /// # Arguments
     ///
     /// * `points`: A slice of points.
-    ///
     /// returns: KdTree<{ D }>
+    ///
+    /// The tree is a plain balanced k-d tree over the point indices. It makes no assumption about
+    /// the coordinates being distinct: any number of points may share a coordinate value or be
+    /// exact duplicates of each other (gridded data, repeated measurements), which the
+    /// bucket-based immutable tree used previously did not handle (its k-nearest and radius
+    /// queries returned repeated indices, wrong distances and missed points on such data).
     pub fn new(points: &[Point<f64, D>]) -> Self {
-        let mut entries: Vec<[f64; D]> = Vec::with_capacity(points.len());
-        for p in points {
-            entries.push(p.coords.into());
+        let points: Vec<[f64; D]> = points.iter().map(|p| p.coords.into()).collect();
+        let mut order: Vec<usize> = (0..points.len()).collect();
+        build_range(&points, &mut order, 0);
+        Self { points, order }
+    }
+
+    fn dist2(&self, index: usize, query: &[f64; D]) -> f64 {
+        let p = &self.points[index];
+        (0..D).map(|k| (p[k] - query[k]) * (p[k] - query[k])).sum()
+    }
+
+    /// Visit the nodes of `order[lo..hi]` nearest-side first. `bound` returns the squared distance
+    /// beyond which a subtree cannot contribute any more, `visit` receives every candidate.
+    fn search(
+        &self,
+        lo: usize,
+        hi: usize,
+        depth: usize,
+        query: &[f64; D],
+        bound: &mut dyn FnMut() -> f64,
+        visit: &mut dyn FnMut(usize, f64),
+    ) {
+        if lo >= hi {
+            return;
         }
-        Self {
-            tree: kdtree::ImmutableKdTree::new_from_slice(&entries),
+        let mid = lo + (hi - lo) / 2;
+        let index = self.order[mid];
+        visit(index, self.dist2(index, query));
+
+        let axis = depth % D;
+        let diff = query[axis] - self.points[index][axis];
+        let (near, far) = if diff < 0.0 {
+            ((lo, mid), (mid + 1, hi))
+        } else {
+            ((mid + 1, hi), (lo, mid))
+        };
+        self.search(near.0, near.1, depth + 1, query, bound, visit);
+        if diff * diff <= bound() {
+            self.search(far.0, far.1, depth + 1, query, bound, visit);
         }
     }
+}
+
+fn build_range<const D: usize>(points: &[[f64; D]], order: &mut [usize], depth: usize) {
+    if order.len() <= 1 {
+        return;
+    }
+    let axis = depth % D;
+    let mid = order.len() / 2;
+    order.select_nth_unstable_by(mid, |a, b| {
+        points[*a][axis]
+            .partial_cmp(&points[*b][axis])
+            .unwrap_or(std::cmp::Ordering::Equal)
+    });
+    let (left, rest) = order.split_at_mut(mid);
+    build_range(points, left, depth + 1);
+    build_range(points, &mut rest[1..], depth + 1);
 }
 
 impl<const D: usize> KdTreeSearch<D> for KdTree<D> {
@@ -55,10 +113,22 @@ impl<const D: usize> KdTreeSearch<D> for KdTree<D> {
     ///
     /// ```
     fn nearest_one(&self, point: &Point<f64, D>) -> (usize, f64) {
-        let result = self
-            .tree
-            .nearest_one::<SquaredEuclidean>(&point.coords.into());
-        (result.item, result.distance.sqrt())
+        let query: [f64; D] = point.coords.into();
+        let best = std::cell::Cell::new((usize::MAX, f64::INFINITY));
+        self.search(
+            0,
+            self.order.len(),
+            0,
+            &query,
+            &mut || best.get().1,
+            &mut |i, d2| {
+                if d2 < best.get().1 {
+                    best.set((i, d2));
+                }
+            },
+        );
+        let (i, d2) = best.get();
+        (i, d2.sqrt())
     }
 
     /// Find the nearest `count` points in the kd-tree to a given point.
@@ -76,13 +146,36 @@ impl<const D: usize> KdTreeSearch<D> for KdTree<D> {
     ///
     /// ```
     fn nearest(&self, point: &Point<f64, D>, count: NonZero<usize>) -> Vec<(usize, f64)> {
-        let result = self
-            .tree
-            .nearest_n::<SquaredEuclidean>(&point.coords.into(), count);
-        result
-            .iter()
-            .map(|r| (r.item, r.distance.sqrt()))
-            .collect::<Vec<_>>()
+        let query: [f64; D] = point.coords.into();
+        let count = count.get();
+        // The `count` best candidates so far, kept sorted by ascending squared distance
+        let best: std::cell::RefCell<Vec<(usize, f64)>> = std::cell::RefCell::new(Vec::new());
+        self.search(
+            0,
+            self.order.len(),
+            0,
+            &query,
+            &mut || {
+                let b = best.borrow();
+                if b.len() < count {
+                    f64::INFINITY
+                } else {
+                    b[b.len() - 1].1
+                }
+            },
+            &mut |i, d2| {
+                let mut b = best.borrow_mut();
+                if b.len() < count || d2 < b[b.len() - 1].1 {
+                    let at = b.partition_point(|e| e.1 <= d2);
+                    b.insert(at, (i, d2));
+                    b.truncate(count);
+                }
+            },
+        );
+        best.into_inner()
+            .into_iter()
+            .map(|(i, d2)| (i, d2.sqrt()))
+            .collect()
     }
 
     /// Find all points within a given radius of a point.
@@ -100,18 +193,22 @@ impl<const D: usize> KdTreeSearch<D> for KdTree<D> {
     ///
     /// ```
     fn within(&self, point: &Point<f64, D>, radius: f64) -> Vec<(usize, f64)> {
-        let result = self
-            .tree
-            .within::<SquaredEuclidean>(&point.coords.into(), radius * radius);
-        result
-            .iter()
-            .map(|r| (r.item, r.distance.sqrt()))
-            .collect::<Vec<_>>()
+        let query: [f64; D] = point.coords.into();
+        let r2 = radius * radius;
+        let mut found: Vec<(usize, f64)> = Vec::new();
+        self.search(0, self.order.len(), 0, &query, &mut || r2, &mut |i, d2| {
+            // Points at exactly the radius are not included
+            if d2 < r2 {
+                found.push((i, d2));
+            }
+        });
+        found.sort_by(|a, b| a.1.partial_cmp(&b.1).unwrap_or(std::cmp::Ordering::Equal));
+        found.into_iter().map(|(i, d2)| (i, d2.sqrt())).collect()
     }
 
     /// Get the number of points in the kd-tree.
     fn len(&self) -> usize {
-        self.tree.size()
+        self.order.len()
     }
 }
 
